@@ -218,6 +218,10 @@ def _as_comp(fi, src):
     if isinstance(src, (ast.GeneratorExp, ast.ListComp)) and len(src.generators) == 1 and not src.generators[0].ifs:
         g = src.generators[0]
         return src.elt, g.target, g.iter
+    if isinstance(src, ast.Call) and q.dotted(src.func) == "map" and len(src.args) == 2 and not src.keywords and isinstance(src.args[0], (ast.Name, ast.Attribute)):
+        # map(f, xs)  ==  (f(x) for x in xs)
+        tv = ast.Name(id="_map_item", ctx=ast.Load())
+        return ast.Call(func=src.args[0], args=[tv], keywords=[]), ast.Name(id="_map_item", ctx=ast.Store()), src.args[1]
     if isinstance(src, ast.Name):
         ds = _defs(fi, src.id)
         if len(ds) == 1 and isinstance(ds[0].value, ast.List) and not ds[0].value.elts:
@@ -719,11 +723,25 @@ def rule_call_sites(ck):
         if "parameters" in fparams:
             pa_ = q.arg(ca, 3, "parameters")
             d = q.dotted(pa_) if pa_ is not None else None
-            is_merge = lambda n: n.kind == "stmt" and any(isinstance(x, ast.Call) and isinstance(x.func, ast.Attribute) and x.func.attr == "update" and q.dotted(x.func.value) == d
-                                                          and x.args and q.dotted(x.args[0]) == "parameters" for x in q.walk_local(n.ast))
+            def _display_merges(v_):
+                """{**a, **parameters} / dict(a, **parameters) / a | parameters"""
+                if isinstance(v_, ast.Dict):
+                    return any(k_ is None and q.dotted(x_) == "parameters" for k_, x_ in zip(v_.keys, v_.values))
+                if isinstance(v_, ast.Call) and q.dotted(v_.func) == "dict":
+                    return any(q.dotted(a_) == "parameters" for a_ in v_.args) or any(k_.arg is None and q.dotted(k_.value) == "parameters" for k_ in v_.keywords)
+                if isinstance(v_, ast.BinOp) and isinstance(v_.op, ast.BitOr):
+                    return _display_merges(v_.left) or _display_merges(v_.right) or "parameters" in (q.dotted(v_.left), q.dotted(v_.right))
+                return False
+
+            is_merge = lambda n: n.kind == "stmt" and (any(isinstance(x, ast.Call) and isinstance(x.func, ast.Attribute) and x.func.attr == "update" and q.dotted(x.func.value) == d
+                                                           and x.args and q.dotted(x.args[0]) == "parameters" for x in q.walk_local(n.ast))
+                                                       or (isinstance(n.ast, (ast.Assign, ast.AugAssign)) and d in q.assigned_paths(n.ast) and (_display_merges(n.ast.value) or (isinstance(n.ast, ast.AugAssign) and q.dotted(n.ast.value) == "parameters"))))
             ef = event_facts(fi, {"merged": is_merge}, cond_facts=False)
             for node, c in (sites[SIGS[0]][0], sites[SIGS[1]][0]):
-                ck.ob("C48.call-sites", fi, c, d == "parameters" or ("@merged", True) in ef[node.id], "the request's own parameters are part of the signed dict on every path", construct="parameters-signed " + q.unparse(c.func))
+                ok_m = d == "parameters" or ("@merged", True) in ef[node.id]
+                if not ok_m and any("parameters" in q.names_in(st_) and d in (q.names_in(st_) | q.assigned_paths(st_)) for st_ in own_nodes(fi.node) if isinstance(st_, ast.stmt) and st_ is not q.enclosing_stmt(q.parent_map(fi.node), c)):
+                    raise AnalysisError("%s: how `parameters` gets into %s is not recognised" % (qn, d))
+                ck.ob("C48.call-sites", fi, c, ok_m, "the request's own parameters are part of the signed dict on every path", construct="parameters-signed " + q.unparse(c.func))
     ck.floor("C48.call-sites", total, 6, "signature call sites")
 
 
